@@ -69,7 +69,15 @@ def _case(draw):
                 members.append({"r": tr if side == "r" else other, "p": other if side == "r" else tr, "tmin": w[0], "tmax": w[1], "type": t})
     order = draw(st.permutations(list(range(len(members)))))
     reactions = [members[i] for i in order][:30]
-    return {"reactions": reactions, "mode": draw(st.sampled_from(MODES)), "requery": draw(st.booleans())}
+    mode = draw(st.sampled_from(MODES))
+    if mode in (None, "brief") and draw(st.booleans()):
+        # merged databases spell the electron differently (KIDA/UMIST 'e-', KROME 'E'): the same species, so the object-based
+        # modes must see through it (the string modes document one spelling convention per list)
+        for rc in reactions:
+            if draw(st.booleans()):
+                rc["r"] = ["E" if x == "e-" else x for x in rc["r"]]
+                rc["p"] = ["E" if x == "e-" else x for x in rc["p"]]
+    return {"reactions": reactions, "mode": mode, "requery": draw(st.booleans())}
 
 
 def strategy(tier):
@@ -86,8 +94,9 @@ def fixed_cases(tier):
 
 
 def key_of(rc, mode):
-    r = tuple(sorted(rc["r"]))
-    p = tuple(sorted(rc["p"]))
+    canon = lambda x: "e-" if x == "E" else x  # one electron, two spellings
+    r = tuple(sorted(canon(x) for x in rc["r"]))
+    p = tuple(sorted(canon(x) for x in rc["p"]))
     if mode in ("brief", "minimal"):
         return (r, p)
     if mode == "short":
@@ -147,7 +156,10 @@ def check_case(case, tier):
                 failures.append((f"dup/second-report-not-empty/{mode}", f"{tag}: second report dupidx={list(i2)} first={len(f2)}"))
             if case.get("requery"):
                 # other modes on the same object after the removal agree with the reference on the survivors
+                mixed = any("E" in rc["r"] + rc["p"] for rc in rs) and any("e-" in rc["r"] + rc["p"] for rc in rs)
                 for m2 in MODES:
+                    if mixed and m2 in ("minimal", "short"):
+                        continue  # string modes: one spelling convention per list (documented)
                     wd, wf = reference([rs[i] for i in want_left], m2)
                     d3, i3, f3 = net.find_duplicate_reaction(m2)
                     if list(i3) != wd:
